@@ -263,6 +263,32 @@ fn near_any(v: f64, cands: &[f64], tol: f64) -> bool {
     cands.iter().any(|c| (v - c).abs() <= tol)
 }
 
+/// Do the `inside` steps of the case certainly have a solution? True when every host is a plain box (rect, group) and the
+/// boxes overlap by more than any generated margin takes away.
+fn certainly_solvable(case: &Case) -> bool {
+    let host_box = |r: usize| -> Option<BBox> {
+        match case.targets.get(r)? {
+            Target::Rect([x, y, w, h]) => Some(BBox::xywh(*x, *y, *w, *h)),
+            Target::Group(kids) => kids.iter().map(|[x, y, w, h]| BBox::xywh(*x, *y, *w, *h)).reduce(|a, b| a.union(&b)),
+            _ => None,
+        }
+    };
+    case.pending.is_none()
+        && case.steps.iter().all(|s| {
+            let boxes: Option<Vec<BBox>> = s.refs.iter().map(|r| host_box(*r)).collect();
+            match boxes {
+                Some(bs) if !bs.is_empty() => {
+                    let mut i = Some(bs[0]);
+                    for b in &bs[1..] {
+                        i = i.and_then(|x| x.intersect(b));
+                    }
+                    s.surround || i.map(|x| x.w() > 2.5 && x.h() > 2.5).unwrap_or(false)
+                }
+                _ => false,
+            }
+        })
+}
+
 impl Property for C12 {
     type Case = Case;
     fn id(&self) -> &'static str {
@@ -292,28 +318,7 @@ impl Property for C12 {
                 // an empty intersection legitimately has no solution - unless the hosts are plain boxes (rects, groups) that
                 // overlap by more than any generated margin takes away: then there is one
                 if case.steps.iter().any(|s| !s.surround) {
-                    let host_box = |r: usize| -> Option<BBox> {
-                        match case.targets.get(r)? {
-                            Target::Rect([x, y, w, h]) => Some(BBox::xywh(*x, *y, *w, *h)),
-                            Target::Group(kids) => kids.iter().map(|[x, y, w, h]| BBox::xywh(*x, *y, *w, *h)).reduce(|a, b| a.union(&b)),
-                            _ => None,
-                        }
-                    };
-                    let certainly_solvable = case.pending.is_none()
-                        && case.steps.iter().all(|s| {
-                            let boxes: Option<Vec<BBox>> = s.refs.iter().map(|r| host_box(*r)).collect();
-                            match boxes {
-                                Some(bs) if !bs.is_empty() => {
-                                    let mut i = Some(bs[0]);
-                                    for b in &bs[1..] {
-                                        i = i.and_then(|x| x.intersect(b));
-                                    }
-                                    s.surround || i.map(|x| x.w() > 2.5 && x.h() > 2.5).unwrap_or(false)
-                                }
-                                _ => false,
-                            }
-                        });
-                    if certainly_solvable {
+                    if certainly_solvable(case) {
                         return Verdict::fail(format!("c12:inside-rejected-although-hosts-overlap:{k}"), format!("{}\n--- document ---\n{doc}", crate::run::trunc(&m, 1500)), vec![], 1);
                     }
                     return Verdict::skip(format!("inside-without-solution-or-error:{k}"), vec![], 1);
@@ -343,6 +348,9 @@ impl Property for C12 {
                 None => {
                     if !s.surround {
                         // empty intersection: the element is emitted without geometry
+                        if certainly_solvable(case) {
+                            return Verdict::fail("c12:inside-without-geometry-although-hosts-overlap", format!("#s{k} has no geometry\n--- document ---\n{doc}\n--- output ---\n{out}"), vec![], 1);
+                        }
                         return Verdict::skip("inside-without-solution", vec![], 1);
                     }
                     return Verdict::fail("c12:no-geometry", format!("#s{k} has no geometry: {:?}\n{doc}", el.attrs), vec![], 1);
